@@ -140,7 +140,8 @@ impl<'a> Iterator for RangedBytesIterator<'a> {
         }
         let bytes = self.cursor.read_bytes(self.size).ok()?;
         let index = self.index;
-        self.index += 1;
+        // the last element of a range may have index == u16::MAX, iteration is terminated by `remaining`
+        self.index = self.index.saturating_add(1);
         self.remaining -= 1;
         Some((bytes, index))
     }
